@@ -89,7 +89,18 @@ class Analyzer:
             if e.id == self.stream: return Opaque('name ' + e.id)
             return st.env.get(e.id, Opaque('name ' + e.id))
         if isinstance(e, ast.List):
-            return Lst([self.ev(x, st) for x in e.elts])
+            parts = []
+            for x in e.elts:
+                if isinstance(x, ast.Starred):
+                    v = self.ev(x.value, st)
+                    if isinstance(v, Opaque) and v.why == 'name ' + self.stream:
+                        v = Rest(st.cursor); st.cursor = Pos(10**6)
+                    if isinstance(v, Lst): parts.extend(v.parts)
+                    elif isinstance(v, (Rng, Rest)): parts.append(v)
+                    else: return Opaque('starred ' + norm(x.value))
+                else:
+                    parts.append(self.ev(x, st))
+            return Lst(parts)
         if isinstance(e, ast.Subscript):
             base = self.ev(e.value, st)
             if isinstance(base, Lst):
@@ -125,6 +136,11 @@ class Analyzer:
                 if isinstance(base, Lst) and isinstance(f.value, ast.Name):
                     lastv, rest = self.split_last(base, st)
                     st.env[f.value.id] = rest; return lastv
+            if isinstance(f, ast.Attribute) and f.attr == 'pop' and len(e.args) == 1 and isinstance(e.args[0], ast.Constant) and e.args[0].value == 0:
+                base = self.ev(f.value, st)
+                if isinstance(base, Lst) and isinstance(f.value, ast.Name) and base.parts:
+                    firstv = self.first(base)
+                    st.env[f.value.id] = self.drop_front(base, 1); return firstv
             if isinstance(f, ast.Name) and f.id[:1].isupper() or (isinstance(f, ast.Name) and f.id in ('_constructor',)):
                 return Elem(f.id, [self.ev(a, st) for a in e.args])
             return Opaque('call ' + fname)
@@ -173,7 +189,17 @@ class Analyzer:
         st.trace.append((node.lineno, v))
     # ---- conditions: returns list of (state, bool) feasible
     def branch(self, test, st):
-        src = norm(test)
+        if isinstance(test, ast.UnaryOp) and isinstance(test.op, ast.Not):
+            return [(s2, not v) for s2, v in self.branch(test.operand, st)]
+        if isinstance(test, ast.BoolOp):
+            isand = isinstance(test.op, ast.And)
+            out = []
+            def rec(i, s_):
+                for s2, v in self.branch(test.values[i], s_):
+                    if v != isand or i == len(test.values) - 1: out.append((s2, v))
+                    else: rec(i + 1, s2)
+            rec(0, st)
+            return out
         # emptiness / None facts
         if isinstance(test, ast.Name):
             v = st.env.get(test.id)
@@ -206,7 +232,13 @@ class Analyzer:
         st.env[name] = NONE; return st
     def zero_len(self, st, rng):
         sym = [s for s in rng.b.syms if s not in rng.a.syms]
-        def sub(p): return Pos(p.c, tuple(s for s in p.syms if s not in sym))
+        if len(sym) != 1:
+            if rng.a == rng.b: return st
+            raise Unsupported('emptiness of %r' % (rng,))
+        k = rng.a.c - rng.b.c          # b = a  =>  sym = a.c - b.c
+        def sub(p):
+            n_ = sum(1 for s in p.syms if s in sym)
+            return Pos(p.c + k * n_, tuple(s for s in p.syms if s not in sym))
         st.cursor = sub(st.cursor); st.done = sub(st.done)
         def subv(v):
             if isinstance(v, Item): return Item(sub(v.p), v.maybe_none)
